@@ -19,23 +19,23 @@ VARIABLES l, st, bad
 vars == <<l, st, bad>>
 Upd(f, k, v) == [x \in (DOMAIN f) \cup {k} |-> IF x = k THEN v ELSE f[x]]
 Empty == [run |-> 0, sub |-> <<>>, pubs |-> {}, stalled |-> ""]
-NewSub == [subEnd |-> 0, unsubStart |-> 0, unsubEnd |-> 0, closed |-> FALSE, recv |-> {}]
+NewSub == [subEnd |-> 0, unsubStart |-> 0, unsubEnd |-> 0, closed |-> FALSE, recv |-> {}, key |-> ""]
 S(st0, s) == IF s \in DOMAIN st0.sub THEN st0.sub[s] ELSE NewSub
 
 Step(s, e) ==
   CASE e.ev = "reset" -> [run |-> e.run, sub |-> <<>>, pubs |-> {}, stalled |-> e.stalled]
-    [] e.ev = "sub.end" -> IF e.ok THEN [s EXCEPT !.sub = Upd(@, e.s, [S(s, e.s) EXCEPT !.subEnd = e.i])] ELSE s
+    [] e.ev = "sub.end" -> IF e.ok THEN [s EXCEPT !.sub = Upd(@, e.s, [S(s, e.s) EXCEPT !.subEnd = e.i, !.key = e.key])] ELSE s
     [] e.ev = "unsub.start" -> [s EXCEPT !.sub = Upd(@, e.s, [S(s, e.s) EXCEPT !.unsubStart = e.i])]
     [] e.ev = "unsub.end" -> [s EXCEPT !.sub = Upd(@, e.s, [S(s, e.s) EXCEPT !.unsubEnd = e.i])]
     [] e.ev = "closed" -> [s EXCEPT !.sub = Upd(@, e.s, [S(s, e.s) EXCEPT !.closed = TRUE])]
     [] e.ev = "recv" -> [s EXCEPT !.sub = Upd(@, e.s, [S(s, e.s) EXCEPT !.recv = @ \cup {<<e.from, e.i>>}])]
-    [] e.ev = "pub.start" -> [s EXCEPT !.pubs = @ \cup {<<e.p, e.i>>}]
+    [] e.ev = "pub.start" -> [s EXCEPT !.pubs = @ \cup {<<e.p, e.i, e.key>>}]
     [] OTHER -> s
 
 Delivered(s) ==
   \A x \in DOMAIN s.sub : \A p \in s.pubs :
     LET u == s.sub[x] IN
-    (u.subEnd > 0 /\ u.subEnd < p[2] /\ u.unsubStart = 0 /\ x # s.stalled)
+    (u.subEnd > 0 /\ u.subEnd < p[2] /\ u.unsubStart = 0 /\ x # s.stalled /\ u.key = p[3])
       => (u.closed \/ \E r \in u.recv : r[1] = p[1] /\ r[2] > p[2])
 
 Check(s, e) ==
